@@ -35,6 +35,31 @@ Theorem conflict_rejected : forall failing flaky run skip names,
 Proof. exact conflict_rejected_proof. Qed.
 Print Assumptions conflict_rejected.
 
+(* the names the validation works on are ALL permutations: every base name, and the marked name of
+   every case a gRPC reference peer in use supports *)
+Theorem perm_names_complete : forall suites refc refs su proto cs c,
+  In (su, proto, cs) suites -> In c cs ->
+  In (base_name su c) (perm_names suites refc refs) /\
+  (forall cg sg, (cg = true \/ sg = true) -> (cg = true -> refc = true) -> (sg = true -> refs = true) ->
+     grpc_supported proto cg sg = true ->
+     In (marked_name cg sg su c) (perm_names suites refc refs)).
+Proof. exact perm_names_complete_proof. Qed.
+Print Assumptions perm_names_complete.
+
+(* ... so a marked gRPC-peer name matched as both known-failing and known-flaky is rejected too *)
+Theorem conflict_rejected_all_perms : forall failing flaky run skip suites refc refs,
+  (exists n, In n (perm_names suites refc refs) /\ some_glob failing n /\ some_glob flaky n) ->
+  run_checks_perms failing flaky run skip suites refc refs <> None.
+Proof. exact conflict_rejected_all_perms_proof. Qed.
+Print Assumptions conflict_rejected_all_perms.
+
+Theorem unmatched_rejected_all_perms : forall failing flaky run skip suites refc refs,
+  (exists p, In p (failing ++ flaky ++ run ++ skip) /\
+             forall n, In n (perm_names suites refc refs) -> ~ globs p n) ->
+  run_checks_perms failing flaky run skip suites refc refs <> None.
+Proof. exact unmatched_rejected_all_perms_proof. Qed.
+Print Assumptions unmatched_rejected_all_perms.
+
 (* every pattern supplied by repeated flags, @files or both takes part, in order *)
 Theorem collect_all : forall args, args_to_patterns args = concat (map expand_arg args).
 Proof. exact collect_all_proof. Qed.
@@ -65,6 +90,12 @@ Proof. vm_compute. reflexivity. Qed.
 Example ex_conflict :
   run_checks [bs "a/b"] [bs "a/*"] [] [] [bs "a/b"] = Some Ambiguous.
 Proof. vm_compute. reflexivity. Qed.
+Example ex_conflict_marked_only :
+  run_checks_perms [bs "**/(grpc server impl)/**"] [bs "g/**"] [] []
+                   [(bs "g", 2, [bs "x"]); (bs "c", 1, [bs "y"])] false true = Some Ambiguous /\
+  run_checks_perms [bs "**/(grpc server impl)/**"] [bs "c/**"] [] []
+                   [(bs "g", 2, [bs "x"]); (bs "c", 1, [bs "y"])] false true = None.
+Proof. vm_compute. auto. Qed.
 Example ex_collect :
   args_to_patterns [Lit (bs "p1"); AtFile (bs " x
 #c
